@@ -551,6 +551,7 @@ func init() {
 			"both decided by enumerating the stage's decision table over every consistent truth assignment of the comparisons it performs (E7.stage, E7.symmetry); and a path enters a destination's list only through the sorted insertion, which every announcement reaches (E7.sorted-insertion). The values are only touched through comparisons, so the table is finite and complete. Also: (E6.path-cache-reset) every memoised atomic field of Path is reset by both attribute mutators, so a rewritten clone is ranked by its own attributes.",
 		Not: "Transitivity across stages (MED is known to be non-transitive), the value of AS_PATH length for SET/CONFED segments, multipath prefix selection beyond its shape, and independence from arrival order as a whole are not decided.",
 		Run: func(c *Ctx) {
+			c.ruleRatchets("C03")
 			c.ruleComparatorChain()
 			c.ruleSortedInsertionOnly()
 			c.rulePathCacheReset("E6.path-cache-reset")
